@@ -3,9 +3,9 @@
 # Confirms a sub-agent's seeded change and runs checks against it, on private copies of /repo's source tree (no git state is
 # shared with the agents' worktrees):   /tmp/wt/apply_<name>/orig = /repo HEAD    /tmp/wt/apply_<name>/chg = the same + patch.diff
 set -u
-WT=/tmp/wt/$1; NAME=$2; shift; shift
+WT=${WTROOT:-/tmp/wt}/$1; NAME=$2; shift; shift
 OUT=/verif/seeded/$NAME
-A=/tmp/wt/apply_$NAME
+A=${WTROOT:-/tmp/wt}/apply_$NAME
 mkdir -p $OUT; rm -rf $A; mkdir -p $A/orig $A/chg
 cp $WT/_seeded/patch.diff $WT/_seeded/demo.py $OUT/ 2>/dev/null
 cp $WT/_seeded/notes.md $OUT/notes.md 2>/dev/null
